@@ -3,6 +3,7 @@ pub mod engine;
 pub mod panics;
 pub mod props;
 pub mod refcodec;
+pub mod sim;
 pub mod util;
 
 #[global_allocator]
